@@ -120,10 +120,9 @@ def table(design=None):
         o = ev.get(own)
         how = ""
         if o:
-            w0 = (o.get("what") or [""])[0]
-            if isinstance(w0, list):
-                w0 = "; ".join(map(str, w0))
-            how = w0 or ("; ".join(l for l in o.get("lines", []) if l.startswith("VIOLATION"))[:80])
+            ws = ["; ".join(map(str, w)) if isinstance(w, list) else str(w) for w in (o.get("what") or [])]
+            w0 = next((w for w in ws if w), "")
+            how = w0 or ("violation reported (model/implementation disagreement, see the replay file)" if o.get("caught") else "") or ("; ".join(l for l in o.get("lines", []) if l.startswith("VIOLATION"))[:80])
             if any("no-failing-input-found" in l for l in o.get("lines", [])) and "skeleton" in how:
                 how = "proof obligation over the regenerated lock skeleton broken (no-failing-input-found): " + how.split("operations:")[-1].strip()
         others = sorted(c for c, r in ev.items() if c != own and r.get("caught"))
